@@ -198,7 +198,7 @@ func (t *textFlow) walkCall(cl *ssa.Call, idx int, d int) {
 	switch name {
 	case "strings.TrimSpace":
 		arg := cl.Call.Args[0]
-		if t.field == "Title" && trimAllowedOn(arg) {
+		if t.field == "Title" && (trimAllowedOn(arg) || c.onlyFromStringFlag(arg, 0)) {
 			if k, _ := lookupKeyOf(resolve(arg)); k != "" {
 				t.trimmedKey = k
 			}
@@ -633,4 +633,52 @@ func uniq(xs []string) []string {
 		}
 	}
 	return out
+}
+
+// onlyFromStringFlag: every origin of v is the value of a cobra/pflag string flag (cmd.Flags().GetString(...)),
+// reached through parameters, plain copies and fields of option structs built by the command handlers - "a title
+// given by flag", whichever options struct carries it.
+func (c *Ctx) onlyFromStringFlag(v ssa.Value, d int) bool {
+	if d > 10 || v == nil {
+		return false
+	}
+	v = resolve(v)
+	switch x := v.(type) {
+	case *ssa.Extract:
+		if cl, ok := x.Tuple.(*ssa.Call); ok && x.Index == 0 {
+			return calleeFullName(&cl.Call) == "(*github.com/spf13/pflag.FlagSet).GetString"
+		}
+		return false
+	case *ssa.Parameter:
+		args := c.argValues(x.Parent(), paramIndex(x))
+		if len(args) == 0 {
+			return false
+		}
+		for _, a := range args {
+			if !c.onlyFromStringFlag(a, d+1) {
+				return false
+			}
+		}
+		return true
+	case *ssa.Phi:
+		for _, e := range x.Edges {
+			if !c.onlyFromStringFlag(e, d+1) {
+				return false
+			}
+		}
+		return true
+	}
+	if _, _, isField := fieldLoad(v); isField {
+		os, ok := fieldOrigins(v, 0)
+		if !ok || len(os) == 0 {
+			return false
+		}
+		for _, o := range os {
+			if !c.onlyFromStringFlag(o.V, d+1) {
+				return false
+			}
+		}
+		return true
+	}
+	return false
 }
